@@ -176,4 +176,57 @@ theorem sessionStage_none {E : Env} {p : Proof} {app : App} {count sbhArg : Int}
     · rename_i nodes hs
       exact ⟨nodes, hs, sessionValidate_none h⟩
 
+/-! ### no stage of the validation ends the process -/
+
+theorem preChecks_ne_fatal (E : Env) (r : Relay) (s : Int) : preChecks E r s ≠ some .fatal := by
+  unfold preChecks
+  repeat' split
+  all_goals simp [pc]
+theorem pubKeyVerification_ne_fatal (s : String) : pubKeyVerification s ≠ some .fatal := by
+  unfold pubKeyVerification
+  repeat' split
+  all_goals simp [pc]
+theorem networkIdVerification_ne_fatal (s : String) : networkIdVerification s ≠ some .fatal := by
+  unfold networkIdVerification
+  repeat' split
+  all_goals simp [pc]
+theorem hashVerification_ne_fatal (s : String) : hashVerification s ≠ some .fatal := by
+  unfold hashVerification
+  repeat' split
+  all_goals simp [pc]
+theorem signatureVerification_ne_fatal (E : Env) (a : String) (b : Bytes) (c : String) : signatureVerification E a b c ≠ some .fatal := by
+  unfold signatureVerification
+  repeat' split
+  all_goals simp [pc]
+theorem validateBasic_ne_fatal (E : Env) (p : Proof) : validateBasic E p ≠ some .fatal := by
+  unfold validateBasic
+  repeat' split
+  all_goals first
+    | (simp [pc]; done)
+    | (rename_i h; intro e; cases e; first | exact pubKeyVerification_ne_fatal _ h | exact networkIdVerification_ne_fatal _ h | exact hashVerification_ne_fatal _ h)
+    | exact signatureVerification_ne_fatal _ _ _ _
+theorem validateLocal_ne_fatal (E : Env) (p : Proof) (c : List String) (s : Int) : validateLocal E p c s ≠ some .fatal := by
+  unfold validateLocal
+  repeat' split
+  all_goals first
+    | (simp [pc]; done)
+    | (rename_i h; intro e; cases e; exact validateBasic_ne_fatal _ _ h)
+theorem sessionValidate_ne_fatal (E : Env) (p : Proof) (a : App) (n : List (Option Bytes)) (c : Int) : sessionValidate E p a n c ≠ some .fatal := by
+  unfold sessionValidate
+  repeat' split
+  all_goals first
+    | (simp [pc]; done)
+    | (rename_i h; intro e; cases e; exact pubKeyVerification_ne_fatal _ h)
+theorem sessionStage_ne_fatal (E : Env) (p : Proof) (a : App) (c s : Int) : sessionStage E p a c s ≠ some .fatal := by
+  unfold sessionStage
+  repeat' split
+  all_goals first
+    | (simp; done)
+    | exact sessionValidate_ne_fatal _ _ _ _ _
+theorem evidenceChecks_fatal (E : Env) (max : Int) (h : evidenceChecks E max = some .fatal) : max = 0 := by
+  unfold evidenceChecks at h
+  split at h
+  · rename_i hz; exact hz.2
+  · repeat (first | split at h | (simp [pc] at h))
+
 end RelayAuth
